@@ -1,3 +1,5 @@
+//go:build !verifsched
+
 package props
 
 import (
@@ -218,7 +220,9 @@ func c14Run(c *hx.Ctx, tier, unit string) {
 			c14Fields(c, "ReadEFIVariableAuthencation2", s, flds, f)
 		}
 		c14Bytes(c, "ReadEFIVariableAuthencation2", seeds[0], f)
-		shortStrings(small, 5, func(b []byte) { robustRun(c, "C14", "ReadEFIVariableAuthencation2", "short string", b, func() { f(b) }) })
+		shortStrings(small, 5, func(b []byte) {
+			robustRun(c, "C14", "ReadEFIVariableAuthencation2", "short string", b, func() { f(b) })
+		})
 		c.Sample(map[string]any{"entry": "ReadEFIVariableAuthencation2", "seeds": len(seeds)})
 	case unit == "wincert":
 		f := func(b []byte) {
@@ -233,7 +237,9 @@ func c14Run(c *hx.Ctx, tier, unit string) {
 			c14Fields(c, "ReadWinCertificate(UEFIGUID)", s, flds, f)
 			c14Bytes(c, "ReadWinCertificate(UEFIGUID)", s, f)
 		}
-		shortStrings(small, 6, func(b []byte) { robustRun(c, "C14", "ReadWinCertificate(UEFIGUID)", "short string", b, func() { f(b) }) })
+		shortStrings(small, 6, func(b []byte) {
+			robustRun(c, "C14", "ReadWinCertificate(UEFIGUID)", "short string", b, func() { f(b) })
+		})
 	case unit == "sigsupport":
 		for n := 0; n <= 48; n++ {
 			for _, p := range []byte{0x00, 0xff, 0x5a} {
@@ -380,7 +386,9 @@ func c14Run(c *hx.Ctx, tier, unit string) {
 			e.WriteVar(efivar.Db, rawval(b))
 			e.WriteVar(efivar.PK, rawval(b))
 		}
-		shortStrings(small, 5, func(b []byte) { robustRun(c, "C14", "TestFS.WriteVar descriptor probe", "short string", b, func() { probe(b) }) })
+		shortStrings(small, 5, func(b []byte) {
+			robustRun(c, "C14", "TestFS.WriteVar descriptor probe", "short string", b, func() { probe(b) })
+		})
 		a := refauth.Auth2{Length: 24 + 5, Revision: 0x0200, Type: 0x0EF1, CertType: guidPKCS7, CertData: fill(5, 3)}.Bytes()
 		c14Trunc(c, "TestFS.WriteVar descriptor probe", a, probe)
 		c14Fields(c, "TestFS.WriteVar descriptor probe", a, []fieldRef{{"dwLength", 16, 4}, {"wRevision", 20, 2}, {"wCertificateType", 22, 2}}, probe)
